@@ -306,6 +306,20 @@ example : weightedSum [(1, .rv [0] [1]), (1 / 2 ^ 53, .time true 0 (2 ^ 60))] [.
     = 128 := by
   simp only [weightedSum, SpaceDist.dist, rvDist_self, timeDist_real]; norm_num
 
+/-- (item D) for compounds as `addSubspace` builds them the shape hypothesis `isCList` of the theorems below is established,
+not assumed: components that satisfy the laws, under ANY positive weights (no lower cut-off), give a compound that satisfies them;
+with non-negative weights the extent law carries over as well. -/
+theorem compound_of_list_metric (cs : List (ℝ × Space ℝ)) :
+    ((∀ c ∈ cs, 0 < c.1 ∧ Laws c.2) → Laws (compoundOf cs)) ∧
+    ((∀ c ∈ cs, 0 ≤ c.1 ∧ ExtentLaw c.2) → ExtentLaw (compoundOf cs)) :=
+  ⟨laws_compoundOf cs, extent_compoundOf cs⟩
+example : ∀ c ∈ [((1:ℝ), (.rv [0] [1] : Space ℝ)), (1 / 2 ^ 60, .so2)], 0 < c.1 ∧ Laws c.2 := by
+  intro c hc
+  simp only [List.mem_cons, List.mem_nil_iff, or_false] at hc
+  rcases hc with rfl | rfl
+  · exact ⟨by norm_num, rv_laws _ _⟩
+  · exact ⟨by norm_num, so2_laws⟩
+
 /-- the reported extent of a compound is the weighted sum of its components' extents, for every positive weight (since
 bb83952a6 no lower cut-off; a zero weight drops the component, which over ℝ is the same sum). -/
 theorem compound_extent_is_weighted_sum (w : ℝ) (h t : Space ℝ) (ht : isCList t = true) (hw : 0 ≤ w) :
@@ -411,7 +425,7 @@ example : inDom (SpaceX.empty : SpaceX ℝ).layout (.rv []) := by simp [SpaceX.l
 constructor, changeable by `setSubspaceWeight`): zero to itself, symmetric (the reachability test is symmetric too), and
 whenever finite: non-negative, positive between states that are not `equalStates` for ANY two positive weights (no lower
 cut-off); its extent is `+∞`, so the extent law is vacuous. -/
-theorem spacetime_claimed_laws (vmax w0 w1 : ℝ) (bd : Bool) (lo hi : ℝ) (inner : Space ℝ) (hv : 0 < vmax) (h0 : 0 < w0)
+theorem spacetime_claimed_laws (vmax w0 w1 : ℝ) (bd : Bool) (lo hi : ℝ) (inner : Space ℝ) (h0 : 0 < w0)
     (h1 : 0 < w1) (L : Laws inner) :
     (∀ a, inDom (SpaceX.spacetime vmax w0 w1 bd lo hi inner).layout a →
       distX (.spacetime vmax w0 w1 bd lo hi inner) a a = some 0) ∧
@@ -423,7 +437,7 @@ theorem spacetime_claimed_laws (vmax w0 w1 : ℝ) (bd : Bool) (lo hi : ℝ) (inn
       distX (.spacetime vmax w0 w1 bd lo hi inner) a b = some d →
       0 ≤ d ∧ (equalX (.spacetime vmax w0 w1 bd lo hi inner) a b = false → 0 < d)) ∧
     extentX (.spacetime vmax w0 w1 bd lo hi inner) = none ∧ claimsMetricX (.spacetime vmax w0 w1 bd lo hi inner) = false :=
-  let ⟨a, b, c⟩ := spacetime_laws vmax w0 w1 bd lo hi inner hv h0 h1 L
+  let ⟨a, b, c⟩ := spacetime_laws vmax w0 w1 bd lo hi inner h0 h1 L
   ⟨a, b, c, rfl, rfl⟩
 example : Laws (.rv [0, 0] [1, 1] : Space ℝ) ∧ (0:ℝ) < 1 / 2 ^ 60 := ⟨rv_laws _ _, by norm_num⟩
 
@@ -448,6 +462,21 @@ example : distX (.spacetime 1 (1 / 2) (1 / 2) false 0 0 .so2 : SpaceX ℝ) (.cco
   simp only [SpaceDist.dist, so2Dist_self]
   rw [if_neg (by rw [fltEps_real]; norm_num)]
   norm_num
+
+/-- F361: Torus / Möbius / Klein-bottle spaces are compounds whose weights `setSubspaceWeight` may change; their `distance`
+overrides apply the weights only partly (with the default weights `(1, 1)` the weighted model is the unweighted one), the
+inherited `getMaximumExtent` applies them fully: on the Möbius strip with weights `(1, 1/10)` the in-bounds states `(-1.6, 1)`,
+`(1.6, 1)` are farther apart (`2π − 1.2`) than the reported extent (`π + 0.2`). -/
+theorem special_weights_extent_fails :
+    (∀ u1 v1 u2 v2 : ℝ, mobiusDistW 1 1 u1 v1 u2 v2 = mobiusDist u1 v1 u2 v2) ∧
+    inDom (.mobius 1 1 : Space ℝ) (.ccons (.so2 (-1.6)) (.ccons (.rv [1]) .cnil)) ∧
+    inDom (.mobius 1 1 : Space ℝ) (.ccons (.so2 1.6) (.ccons (.rv [1]) .cnil)) ∧
+    ∃ e d : ℝ, extentX (.weighted (.mobius 1 1) 1 (1 / 10) : SpaceX ℝ) = some e ∧
+      distX (.weighted (.mobius 1 1) 1 (1 / 10) : SpaceX ℝ) (.ccons (.so2 (-1.6)) (.ccons (.rv [1]) .cnil))
+        (.ccons (.so2 1.6) (.ccons (.rv [1]) .cnil)) = some d ∧ e < d := by
+  obtain ⟨h1, h2, h3⟩ := mobius_weighted_extent_exceeded
+  refine ⟨mobiusDistW_default, ⟨Seam.so2InBounds_of _ (by norm_num) (by norm_num), by norm_num⟩,
+    ⟨Seam.so2InBounds_of _ (by norm_num) (by norm_num), by norm_num⟩, _, _, h1, h2, h3⟩
 
 /-- Projected / Atlas / TangentBundle state spaces: distance, equalStates, satisfiesBounds and extent ARE the ambient
 space's (so they have exactly the ambient space's laws), and `isMetricSpace()` is withdrawn. -/
